@@ -338,7 +338,8 @@ bool CoinStatsIndex::RevertBlock(const interfaces::BlockInfo& block)
             LogWarning("previous block header belongs to unexpected block %s; expected %s",
                       read_out.first.ToString(), expected_block_hash.ToString());
 
-            if (!m_db->Read(index_util::DBHashKey(expected_block_hash), read_out)) {
+            // Entries of the hash index hold the bare DBVal (see index_util::CopyHeightIndexToHashIndex)
+            if (!m_db->Read(index_util::DBHashKey(expected_block_hash), read_out.second)) {
                 LogError("previous block header not found; expected %s",
                           expected_block_hash.ToString());
                 return false;
